@@ -365,6 +365,23 @@ def gen_expr(rng, nv, depth=0):
 def gen_con(rng, nv, doms):
     r = rng.random()
     idx = list(range(nv))
+    if r < 0.07:
+        # a plain signed sum k1*x + k2*y (+ k3*z) with negative multipliers, compared with a value it can actually take: every term
+        # matters for the set of solutions
+        k = rng.randint(1, min(3, nv))
+        vs = rng.sample(idx, k)
+        ks = [rng.choice([-2, -1, -1, 1, 2]) for _ in vs]
+        if all(c > 0 for c in ks):
+            ks[0] = -1
+        terms = [(["rmul", c, _v(v)] if rng.random() < 0.5 else ["mul", _v(v), c]) if c != 1 or rng.random() < 0.5 else _v(v) for c, v in zip(ks, vs)]
+        lhs = terms[0]
+        for t in terms[1:]:
+            lhs = ["add", lhs, t]
+        val = sum(c * rng.randint(doms[v][0], doms[v][1]) for c, v in zip(ks, vs))
+        rhs = _c(val) if rng.random() < 0.7 or nv == k else _v(rng.choice([i for i in idx if i not in vs]))
+        if rng.random() < 0.2:
+            lhs, rhs = rhs, lhs
+        return ["cmp", rng.choice(["eq", "eq", "ne"]), lhs, rhs]
     if r < 0.5:
         op = rng.choice(["eq", "ne"])
         lhs = gen_expr(rng, nv)
@@ -417,6 +434,7 @@ SOLVES = [
 def gen_case(rng, circuit_friendly=False):
     nv = rng.randint(2, 4)
     five = not circuit_friendly and rng.random() < 0.08        # five variables over tiny domains: sums with 5 distinct terms
+    anon = not circuit_friendly and not five and rng.random() < 0.1     # several unnamed helper variables that search has to decide
     if five:
         nv = 5
     vars_, doms = [], []
@@ -430,11 +448,19 @@ def gen_case(rng, circuit_friendly=False):
         else:
             lb = rng.randint(-2, 3)
             ub = lb + rng.choice([0, 1, 2, 2, 3, 3, 4])
-        name = None if rng.random() < 0.08 else ("x%d" % i)
+        name = None if rng.random() < (0.6 if anon else 0.08) else ("x%d" % i)
         vars_.append([name, lb, ub])
         doms.append([lb, ub])
     ncon = rng.choice([1, 1, 1, 2, 2, 3])
     cons = [gen_con(rng, nv, doms) for _ in range(ncon)]
+    if anon and nv >= 3:
+        # constraints propagation alone does not decide while unnamed variables are open: a pigeonhole-tight all_different / a sum
+        for i in range(nv):
+            lb = rng.randint(0, 1)
+            vars_[i][1], vars_[i][2] = lb, lb + rng.choice([1, 2, 2])
+            doms[i] = [vars_[i][1], vars_[i][2]]
+        cons[0] = ["all_different", list(range(nv))] if rng.random() < 0.5 else \
+                  ["cmp", "eq", ["add", ["add", _v(0), _v(1)], _v(2)], _c(rng.randint(sum(d[0] for d in doms[:3]), sum(d[1] for d in doms[:3])))]
     if five:
         vs = list(range(5))
         rng.shuffle(vs)
